@@ -21,6 +21,14 @@ fn universe() -> Vec<String> {
     // NUL and DEL: padding / sentinel values of fixed-size set representations
     v.push("\u{0}".to_string());
     v.push("\u{7f}".to_string());
+    // the ends of the code space (sets that are "everything but one code point"), and the only
+    // fold-table entry with stride 4 (U+01B8/01B9, U+01BC/01BD) with its non-folding neighbours
+    for c in [0x1u32, 0x10FFFF, 0x10FFFE, 0x1B8, 0x1B9, 0x1BA, 0x1BB, 0x1BC, 0x1BD] {
+        v.push(char::from_u32(c).unwrap().to_string());
+    }
+    for s in ["xyz", "bac", "1\u{FE0F}\u{20E3}"] {
+        v.push(s.to_string());
+    }
     for s in ["", "ab", "aB", "AB", "ba", "abc", "kk", "a\u{17F}"] {
         v.push(s.to_string());
     }
@@ -29,9 +37,9 @@ fn universe() -> Vec<String> {
     v
 }
 
-const LEGACY_ITEMS: &[&str] = &["a", "b", "k", "K", "-", "a-c", "A-C", "\\d", "\\w", "\\W", "\\s", "\\S", "\\D", "é", "\\u212A", "ſ", "σ", "µ", "^", "&", "\\b", "[", "\\]"];
-const U_ITEMS: &[&str] = &["a", "b", "k", "K", "\\-", "a-c", "A-C", "\\d", "\\w", "\\W", "\\s", "\\S", "é", "\\u212A", "ſ", "\\p{Lu}", "\\P{Lu}", "\\p{Ll}", "\\P{Ll}", "\\u{10400}", "σ", "µ", "^", "&"];
-const V_LEAVES: &[&str] = &["a", "b", "k", "K", "C", "\\-", "\\&", "a-c", "A-C", "\\d", "\\w", "\\W", "\\s", "é", "\\u212A", "ſ", "\\p{Lu}", "\\P{Lu}", "\\q{ab|a|}", "\\q{k}", "\\q{}", "\\q{AB}", "\\q{C}"];
+const LEGACY_ITEMS: &[&str] = &["\u{1}-\u{10FFFF}", "\u{0}-\u{10FFFE}", "ƻ-Ƽ", "ƹ-Ƽ", "a", "b", "k", "K", "-", "a-c", "A-C", "\\d", "\\w", "\\W", "\\s", "\\S", "\\D", "é", "\\u212A", "ſ", "σ", "µ", "^", "&", "\\b", "[", "\\]"];
+const U_ITEMS: &[&str] = &["\u{1}-\u{10FFFF}", "\u{0}-\u{10FFFE}", "ƻ-Ƽ", "ƹ-Ƽ", "a", "b", "k", "K", "\\-", "a-c", "A-C", "\\d", "\\w", "\\W", "\\s", "\\S", "é", "\\u212A", "ſ", "\\p{Lu}", "\\P{Lu}", "\\p{Ll}", "\\P{Ll}", "\\u{10400}", "σ", "µ", "^", "&"];
+const V_LEAVES: &[&str] = &["\u{1}-\u{10FFFF}", "\u{0}-\u{10FFFE}", "ƻ-Ƽ", "ƹ-Ƽ", "a", "b", "k", "K", "C", "\\-", "\\&", "a-c", "A-C", "\\d", "\\w", "\\W", "\\s", "é", "\\u212A", "ſ", "\\p{Lu}", "\\P{Lu}", "\\q{ab|a|}", "\\q{k}", "\\q{}", "\\q{AB}", "\\q{C}"];
 const V_SMALL: &[&str] = &["a", "k", "K", "a-c", "\\w", "\\W", "\\p{Lu}", "\\q{ab|a}", "ſ", "\\q{}"];
 
 fn build(cfg: &Cfg) -> Vec<(String, Flags)> {
@@ -74,7 +82,7 @@ fn build(cfg: &Cfg) -> Vec<(String, Flags)> {
             operands.push(format!("[{}--{}]", x, y));
         }
     }
-    let is_range = |s: &str| s.len() == 3 && s.as_bytes()[1] == b'-' && !s.starts_with('\\');
+    let is_range = |s: &str| s.chars().count() == 3 && s.chars().nth(1) == Some('-') && !s.starts_with('\\');
     let mut exprs: Vec<String> = Vec::new();
     exprs.push(String::new());
     for a in &operands {
@@ -119,6 +127,13 @@ fn build(cfg: &Cfg) -> Vec<(String, Flags)> {
     for (spell, fl) in [("[a-c]", "v"), ("[abc]", "v"), ("[[a][b][c]]", "v"), ("[\\q{a|b|c}]", "v"), ("[a-z&&[a-c]]", "v"), ("[a-d--d]", "v"), ("[a-c]", "u"), ("[abc]", "u"), ("[a-c]", ""), ("[cba]", "")] {
         for ctx in ["^x?{}+$", "^(?:{}|ab)*$", "^(?<=^{}?)b?$", "^{}{{2}}$"] {
             out.push((ctx.replace("{}", spell), f(fl)));
+        }
+    }
+    // Class strings of two or more characters are matched piecewise: the same set must be
+    // recognised forwards and, inside a lookbehind, backwards.
+    for (cls, fl) in [("[\\q{ab|xyz}c]", "v"), ("[\\q{ab}]", "v"), ("[\\q{ab|a}]", "v"), ("[\\q{aé|a}]", "iv"), ("[\\q{AB|xyz}]", "iv"), ("[\\q{12|ab}]", "iv"), ("[\\q{abc}\\q{ba}]", "v"), ("[\\q{ab|bac}--\\q{ab}]", "v"), ("\\p{Emoji_Keycap_Sequence}", "v"), ("[\\p{Emoji_Keycap_Sequence}--\\q{2\u{FE0F}\u{20E3}}]", "v")] {
+        for ctx in ["^{}$", "(?<=^{})$", "(?<={})c", "(?<={})$", "(?<!{})c$", "(?<=(?={})..)", "(?<=^{}{})$", "^(?:{})+$"] {
+            out.push((ctx.replace("{}", cls), f(fl)));
         }
     }
     out
